@@ -14,6 +14,10 @@
     * a float token that is not a number literal with a fraction/exponent (`float.__repr__` always produces one;
       this is the CPython guarantee the theorem assumes; the driver re-lexes every shipped token and the stream
       fails if one does not fit).
+  JSON5: the loader is `json5.load` followed by `JSON5._combine_surrogates` (`loadJson5`); `read_print_json5` is the
+  round trip for ALL code points on the same domain as `read_print`.  `read_print_json5_bmp` and
+  `json5_astral_counterexample` describe the `json5` library ALONE (the loader before the repair) and are kept as
+  historical witnesses of the defect.
   NOT covered by theorems (stream only): YAML, plist and XML round trips; the JSON5-only source syntax (the printed
   text is plain JSON); that `float(repr(x)) == x` (CPython).
 -/
@@ -30,15 +34,18 @@ theorem read_print (v : JVal) (hv : v.valid = true) : readJson (printJson v) = s
     have e : okStr true = validStr := by funext s; simp [okStr]
     rw [e]; exact hv)
 
-/-- JSON5 with a loader that does NOT recombine escaped surrogate pairs (the `json5` library as shipped): the
-    round trip holds exactly on documents whose strings stay inside the Basic Multilingual Plane. -/
+/-- HISTORICAL WITNESS (pre-fix loader): JSON5 read by the `json5` library ALONE, which does not recombine escaped
+    surrogate pairs — what `JSON5.build_tree` did before the repair.  The round trip then holds exactly on documents
+    whose strings stay inside the Basic Multilingual Plane.  The statement about the CURRENT loader is
+    `read_print_json5` below (all code points); this lemma is used in its proof. -/
 theorem read_print_json5_bmp (v : JVal) (hv : v.valid5 = true) : readJson5 (printJson v) = some v :=
   readDoc_printJson false v (by
     have e : okStr false = bmpStr := by funext s; simp [okStr]
     rw [e]; exact hv)
 
-/-- ... and fails for every astral character: U+10000 comes back as two surrogates (the defect repaired in
-    `JSON5.build_tree`, after which the JSON5 loader behaves like `readJson` on printed text). -/
+/-- HISTORICAL WITNESS (pre-fix loader, recorded defect): with the `json5` library alone the round trip fails for
+    every astral character — U+10000 comes back as two surrogates.  Repaired in `JSON5.build_tree`
+    (`_combine_surrogates`); the current loader is `loadJson5`, for which `read_print_json5` holds. -/
 theorem json5_astral_counterexample :
     readJson5 (printJson (.str [65536])) = some (.str [55296, 56320]) := by rfl
 
@@ -57,6 +64,246 @@ def sample : JVal :=
 
 example : sample.valid = true := by decide
 example : (JVal.arr (.cons (.str [233, 8232, 65534]) (.cons (.int (-5)) .nil))).valid5 = true := by decide
+
+/-! ## JSON5 after the fix: `JSON5.build_tree` = `build_tree(JSON5._combine_surrogates(json5.load(f)))`
+
+  `_combine_surrogates` sends every string of the loaded value (keys included) through
+  `s.encode('utf-16-le', 'surrogatepass').decode('utf-16-le', 'surrogatepass')`: the encoder writes an astral character
+  as a surrogate pair of code units (`splitStr`), the decoder reads a high unit directly followed by a low unit as one
+  character (`joinStr`) and leaves lone surrogates alone. -/
+
+/-- UTF-16 code units of a string (`encode('utf-16-le', 'surrogatepass')`, as 16-bit units) -/
+def splitStr : Str → Str
+  | [] => []
+  | c :: t =>
+    if 65536 ≤ c then (55296 + (c - 65536) / 1024) :: (56320 + (c - 65536) % 1024) :: splitStr t
+    else c :: splitStr t
+
+/-- `decode('utf-16-le', 'surrogatepass')` of a sequence of 16-bit units -/
+def joinStr : Str → Str
+  | a :: b :: t =>
+    if isHigh a && isLow b then (65536 + (a - 55296) * 1024 + (b - 56320)) :: joinStr t else a :: joinStr (b :: t)
+  | l => l
+
+/-- `JSON5._combine_surrogates` on one string -/
+def combineStr (s : Str) : Str := joinStr (splitStr s)
+
+mutual
+/-- `JSON5._combine_surrogates`: every string and every key of the value -/
+def combineVal : JVal → JVal
+  | .str s => .str (combineStr s)
+  | .arr xs => .arr (combineL xs)
+  | .obj kvs => .obj (combineO kvs)
+  | v => v
+def combineL : JList → JList
+  | .nil => .nil
+  | .cons v t => .cons (combineVal v) (combineL t)
+def combineO : JObj → JObj
+  | .nil => .nil
+  | .cons k v t => .cons (combineStr k) (combineVal v) (combineO t)
+end
+
+/-- the JSON5 loader as it is NOW (after the repair of D-json5-astral): `json5.load`, then `_combine_surrogates` -/
+def loadJson5 (inp : Str) : Option JVal := (readJson5 inp).map combineVal
+
+mutual
+/-- the value with every astral character written as its two surrogates: what the `json5` library returns for the
+    printed text of `v` -/
+def splitVal : JVal → JVal
+  | .str s => .str (splitStr s)
+  | .arr xs => .arr (splitL xs)
+  | .obj kvs => .obj (splitO kvs)
+  | v => v
+def splitL : JList → JList
+  | .nil => .nil
+  | .cons v t => .cons (splitVal v) (splitL t)
+def splitO : JObj → JObj
+  | .nil => .nil
+  | .cons k v t => .cons (splitStr k) (splitVal v) (splitO t)
+end
+
+theorem validStr_head (c : Nat) (t : Str) (h : validStr (c :: t) = true) : c < 1114112 ∧ validStr t = true := by
+  cases t with
+  | nil => simp [validStr] at h ⊢; exact h
+  | cons b r => simp only [validStr, Bool.and_eq_true, decide_eq_true_eq] at h; exact ⟨h.1.1, h.2⟩
+
+theorem escapeChar_unit (u : Nat) (h1 : 55296 ≤ u) (h2 : u < 65536) : escapeChar u = 92 :: 117 :: hex4 u := by
+  unfold escapeChar
+  simp only [show u ≠ 34 by omega, show u ≠ 92 by omega, show u ≠ 10 by omega, show u ≠ 13 by omega, show u ≠ 9 by omega,
+    show u ≠ 8 by omega, show u ≠ 12 by omega, show ¬ (32 ≤ u ∧ u < 127) by omega, h2, if_false, if_true]
+
+/-- an astral character and its two surrogates are printed as the same text (`json.dumps`, ensure_ascii) -/
+theorem printStrBody_split (s : Str) (h : validStr s = true) : printStrBody (splitStr s) = printStrBody s := by
+  induction s with
+  | nil => rfl
+  | cons c t ih =>
+    obtain ⟨hc, ht⟩ := validStr_head c t h
+    by_cases ha : 65536 ≤ c
+    · simp only [splitStr, ha, if_true, printStrBody, ih ht]
+      rw [escapeChar_unit _ (by omega) (by omega), escapeChar_unit _ (by omega) (by omega)]
+      have : escapeChar c = 92 :: 117 :: hex4 (55296 + (c - 65536) / 1024) ++ 92 :: 117 :: hex4 (56320 + (c - 65536) % 1024) := by
+        unfold escapeChar
+        simp only [show c ≠ 34 by omega, show c ≠ 92 by omega, show c ≠ 10 by omega, show c ≠ 13 by omega,
+          show c ≠ 9 by omega, show c ≠ 8 by omega, show c ≠ 12 by omega, show ¬ (32 ≤ c ∧ c < 127) by omega,
+          show ¬ c < 65536 by omega, if_false]
+      rw [this]
+      simp
+    · simp only [splitStr, ha, if_false, printStrBody, ih ht]
+
+theorem printStr_split (s : Str) (h : validStr s = true) : printStr (splitStr s) = printStr s := by
+  simp [printStr, printStrBody_split s h]
+
+mutual
+theorem printVal_split : ∀ (d : Nat) (v : JVal), v.validWith validStr = true → printVal d (splitVal v) = printVal d v
+  | _, .null, _ => rfl
+  | _, .bool _, _ => rfl
+  | _, .int _, _ => rfl
+  | _, .float _, _ => rfl
+  | _, .str s, h => by simp only [JVal.validWith] at h; simp only [splitVal, printVal, printStr_split s h]
+  | _, .arr .nil, _ => rfl
+  | d, .arr (.cons v t), h => by
+    simp only [JVal.validWith, JList.validWith, Bool.and_eq_true] at h
+    simp only [splitVal, splitL, printVal, printVal_split (d + 1) v h.1, printItems_split (d + 1) t h.2]
+  | _, .obj .nil, _ => rfl
+  | d, .obj (.cons k v t), h => by
+    simp only [JVal.validWith, JObj.validWith, Bool.and_eq_true] at h
+    simp only [splitVal, splitO, printVal, printStr_split k h.1.1, printVal_split (d + 1) v h.1.2,
+      printMembers_split (d + 1) t h.2]
+theorem printItems_split : ∀ (d : Nat) (t : JList), t.validWith validStr = true → printItems d (splitL t) = printItems d t
+  | _, .nil, _ => rfl
+  | d, .cons v t, h => by
+    simp only [JList.validWith, Bool.and_eq_true] at h
+    simp only [splitL, printItems, printVal_split d v h.1, printItems_split d t h.2]
+theorem printMembers_split : ∀ (d : Nat) (t : JObj), t.validWith validStr = true →
+    printMembers d (splitO t) = printMembers d t
+  | _, .nil, _ => rfl
+  | d, .cons k v t, h => by
+    simp only [JObj.validWith, Bool.and_eq_true] at h
+    simp only [splitO, printMembers, printStr_split k h.1.1, printVal_split d v h.1.2, printMembers_split d t h.2]
+end
+
+theorem bmp_split (s : Str) (h : validStr s = true) : bmpStr (splitStr s) = true := by
+  induction s with
+  | nil => rfl
+  | cons c t ih =>
+    obtain ⟨hc, ht⟩ := validStr_head c t h
+    have := ih ht
+    simp only [bmpStr, List.all_eq_true, decide_eq_true_eq] at this ⊢
+    by_cases ha : 65536 ≤ c
+    · simp only [splitStr, ha, if_true, List.mem_cons]
+      rintro x (hx | hx | hx)
+      · omega
+      · omega
+      · exact this x hx
+    · simp only [splitStr, ha, if_false, List.mem_cons]
+      rintro x (hx | hx)
+      · omega
+      · exact this x hx
+
+mutual
+theorem valid5_split : ∀ v : JVal, v.validWith validStr = true → (splitVal v).validWith bmpStr = true
+  | .null, _ => rfl
+  | .bool _, _ => rfl
+  | .int _, _ => rfl
+  | .float f, h => by simpa [splitVal, JVal.validWith] using h
+  | .str s, h => by simp only [JVal.validWith] at h; simp only [splitVal, JVal.validWith, bmp_split s h]
+  | .arr xs, h => by simp only [JVal.validWith] at h; simp only [splitVal, JVal.validWith, valid5_splitL xs h]
+  | .obj kvs, h => by simp only [JVal.validWith] at h; simp only [splitVal, JVal.validWith, valid5_splitO kvs h]
+theorem valid5_splitL : ∀ t : JList, t.validWith validStr = true → (splitL t).validWith bmpStr = true
+  | .nil, _ => rfl
+  | .cons v t, h => by
+    simp only [JList.validWith, Bool.and_eq_true] at h
+    simp only [splitL, JList.validWith, valid5_split v h.1, valid5_splitL t h.2, Bool.and_self]
+theorem valid5_splitO : ∀ t : JObj, t.validWith validStr = true → (splitO t).validWith bmpStr = true
+  | .nil, _ => rfl
+  | .cons k v t, h => by
+    simp only [JObj.validWith, Bool.and_eq_true] at h
+    simp only [splitO, JObj.validWith, bmp_split k h.1.1, valid5_split v h.1.2, valid5_splitO t h.2, Bool.and_self]
+end
+
+/-- splitting is idempotent on 16-bit units -/
+theorem splitStr_bmp (s : Str) (h : bmpStr s = true) : splitStr s = s := by
+  induction s with
+  | nil => rfl
+  | cons c t ih =>
+    simp only [bmpStr, List.all_cons, Bool.and_eq_true, decide_eq_true_eq] at h
+    simp only [splitStr, show ¬ 65536 ≤ c by omega, if_false, ih (by simpa [bmpStr] using h.2)]
+
+theorem splitStr_head_not_low (d : Nat) (t' : Str) (c : Nat) (h : validStr (c :: d :: t') = true) :
+    ∃ b r, splitStr (d :: t') = b :: r ∧ (isHigh c && isLow b) = false := by
+  simp only [validStr, Bool.and_eq_true, decide_eq_true_eq, Bool.not_eq_true'] at h
+  by_cases ha : 65536 ≤ d
+  · refine ⟨55296 + (d - 65536) / 1024, (56320 + (d - 65536) % 1024) :: splitStr t', by simp only [splitStr, ha, if_true], ?_⟩
+    have : isLow (55296 + (d - 65536) / 1024) = false := by
+      have : d < 1114112 := (validStr_head d t' h.2).1
+      simp [isLow]; omega
+    simp [this]
+  · exact ⟨d, splitStr t', by simp only [splitStr, ha, if_false], h.1.2⟩
+
+/-- decoding the UTF-16 units of a string without an adjacent surrogate pair gives the string back -/
+theorem joinStr_splitStr (s : Str) (h : validStr s = true) : joinStr (splitStr s) = s := by
+  induction s with
+  | nil => rfl
+  | cons c t ih =>
+    obtain ⟨hc, ht⟩ := validStr_head c t h
+    by_cases ha : 65536 ≤ c
+    · simp only [splitStr, ha, if_true, joinStr]
+      have h1 : isHigh (55296 + (c - 65536) / 1024) = true := by simp [isHigh]; omega
+      have h2 : isLow (56320 + (c - 65536) % 1024) = true := by simp [isLow]; omega
+      simp only [h1, h2, Bool.and_self, if_true, ih ht, GtModel.RoundTrip.astral_arith c ha hc]
+    · cases t with
+      | nil => simp [splitStr, ha, joinStr]
+      | cons d t' =>
+        obtain ⟨b, r, hb, hnl⟩ := splitStr_head_not_low d t' c h
+        have e : splitStr (c :: d :: t') = c :: b :: r := by
+          rw [← hb]; simp only [splitStr, ha, if_false]
+        rw [e]
+        simp only [joinStr, hnl, Bool.false_eq_true, if_false]
+        rw [← hb, ih ht]
+
+theorem combineStr_split (s : Str) (h : validStr s = true) : combineStr (splitStr s) = s := by
+  unfold combineStr
+  rw [splitStr_bmp _ (bmp_split s h), joinStr_splitStr s h]
+
+mutual
+theorem combine_split : ∀ v : JVal, v.validWith validStr = true → combineVal (splitVal v) = v
+  | .null, _ => rfl
+  | .bool _, _ => rfl
+  | .int _, _ => rfl
+  | .float _, _ => rfl
+  | .str s, h => by simp only [JVal.validWith] at h; simp only [splitVal, combineVal, combineStr_split s h]
+  | .arr xs, h => by simp only [JVal.validWith] at h; simp only [splitVal, combineVal, combine_splitL xs h]
+  | .obj kvs, h => by simp only [JVal.validWith] at h; simp only [splitVal, combineVal, combine_splitO kvs h]
+theorem combine_splitL : ∀ t : JList, t.validWith validStr = true → combineL (splitL t) = t
+  | .nil, _ => rfl
+  | .cons v t, h => by
+    simp only [JList.validWith, Bool.and_eq_true] at h
+    simp only [splitL, combineL, combine_split v h.1, combine_splitL t h.2]
+theorem combine_splitO : ∀ t : JObj, t.validWith validStr = true → combineO (splitO t) = t
+  | .nil, _ => rfl
+  | .cons k v t, h => by
+    simp only [JObj.validWith, Bool.and_eq_true] at h
+    simp only [splitO, combineO, combineStr_split k h.1.1, combine_split v h.1.2, combine_splitO t h.2]
+end
+
+/-- what the `json5` library itself returns for printed text: the document with every astral character as two
+    surrogates (this is the pre-fix defect, for ALL documents) -/
+theorem json5_library_splits (v : JVal) (hv : v.valid = true) : readJson5 (printJson v) = some (splitVal v) := by
+  have h := read_print_json5_bmp (splitVal v) (valid5_split v hv)
+  rwa [show printJson (splitVal v) = printJson v from printVal_split 0 v hv] at h
+
+/-- JSON5, POST-FIX, ALL CODE POINTS: for every loaded document (same domain as `read_print`: code points in range, no
+    high surrogate directly followed by a low one; lone surrogates and astral characters included) the JSON5 loader
+    as it is now — `json5.load` followed by `_combine_surrogates` — applied to the printed text returns the document -/
+theorem read_print_json5 (v : JVal) (hv : v.valid = true) : loadJson5 (printJson v) = some v := by
+  unfold loadJson5
+  rw [json5_library_splits v hv, Option.map_some, combine_split v hv]
+
+/-- the former counterexample now round-trips: U+10000, and 😀 next to a lone high and a lone low surrogate -/
+example : loadJson5 (printJson (.str [65536])) = some (.str [65536]) := by rfl
+example : loadJson5 (printJson sample) = some sample := read_print_json5 sample (by decide)
+/-- `_combine_surrogates` leaves lone surrogates alone and joins a pair -/
+example : combineStr [55296, 120, 56320, 55357, 56832] = [55296, 120, 56320, 128512] := by decide
 
 /-! ## CSV -/
 
